@@ -205,6 +205,11 @@ TCwalk == /\ Good("cwalk")
 RECURSIVE HasMissing(_)
 HasMissing(kid) == kid # <<>> /\ (kid[1].k = <<-1>> \/ \E i \in DOMAIN kid[1].c : HasMissing(kid[1].c[i]))
 
+\* every key of the decoded tree is a key of the universe (a rank outside 1..nk means the harness could not decode it back)
+RECURSIVE KeysKnown(_)
+KeysKnown(kid) == kid = <<>> \/ (/\ \A i \in DOMAIN kid[1].k : kid[1].k[i] \in 1..cfg.nk
+                                  /\ \A j \in DOMAIN kid[1].c : KeysKnown(kid[1].c[j]))
+
 TRoot == /\ Good("root")
          /\ LET t == th[Ev.h]
                 r == DoMakeRoot(t.hr)
@@ -213,12 +218,14 @@ TRoot == /\ Good("root")
                 W == ToSet(Ev.w)
                 base == t.hr.base
                 mods == t.hr.mods
-                missing == HasMissing(Ev.link)
+                garbled == ~HasMissing(Ev.link) /\ ~(KeysKnown(Ev.link) /\ \A i \in DOMAIN Ev.w : KeysKnown(<<Ev.w[i]>>))
+                missing == HasMissing(Ev.link) \/ garbled
                 newroot == [id |-> Ev.r, root |-> Ev.link, height |-> Ev.rh, size |-> Ev.rs, model |-> t.model,
                             ok |-> \E i \in DOMAIN Ev.robs : Ev.robs[i].r = Ev.r /\
                                      ~RObsBad(Ev.robs[i], [model |-> t.model])]
                 vfail == IF Ev.res # "ok" THEN {V("C03", "persisting fails on a healthy store", Ev.h)} ELSE {}
-                vmiss == IF Ev.res = "ok" /\ missing THEN {V("C03", "returned root reaches a node that is not in the store", Ev.h)} ELSE {}
+                vmiss == IF Ev.res = "ok" /\ garbled THEN {V("C05", "the persisted tree does not decode back to keys that were inserted (in the tree's own node format)", Ev.h)}
+                         ELSE IF Ev.res = "ok" /\ missing THEN {V("C03", "returned root reaches a node that is not in the store", Ev.h)} ELSE {}
                 v04 == IF Ev.res # "ok" \/ missing THEN {} ELSE
                        (IF Ev.rh # ruleH THEN {V("C04", "persisted height differs from min(max layer, floor(log_bf(size-1)))", Ev.h)} ELSE {})
                        \cup (IF Ev.rs # Len(es) THEN {V("C04", "persisted size differs from the number of entries", Ev.h)} ELSE {})
